@@ -89,11 +89,15 @@ StyleVecs(f, cs, lst) ==
 \* index sets of the pool with n elements, as strictly increasing sequences (= canonical order)
 IncSeqs(m, n) == { s \in [1..n -> 1..m] : \A i \in 1..(n - 1) : s[i] < s[i + 1] }
 
-VARIABLES fam, cands, listing, styles, unary, naming,   \* the case (constant along a behaviour)
+Variants(f, n) == IF n # 2 THEN { <<"plain", "before">> }
+                  ELSE { <<"plain", "before">>, <<"under", "before">>, <<"plain", "after">> }
+                       \cup (IF f = "method" THEN { <<"recvunder", "before">> } ELSE {})
+
+VARIABLES fam, cands, listing, styles, unary, naming, declpos,   \* the case (constant along a behaviour)
           onames, decls, exov,                   \* Preload
           table,                                  \* InitPkg
           k, i, res, pc                           \* calls: k = current call, i = scan position
-vars == <<fam, cands, listing, styles, unary, naming, onames, decls, exov, table, k, i, res, pc>>
+vars == <<fam, cands, listing, styles, unary, naming, declpos, onames, decls, exov, table, k, i, res, pc>>
 
 N == Len(cands)
 
@@ -114,7 +118,11 @@ Init == /\ \E g \in GridDef : LET pool == PoolByName(g[3]) IN
               \* identifiers with / without "_": cl overloadName switches the separator of the Gopo_
               \* constant to "__" when the function or receiver type name contains an underscore, and gogen
               \* checkTypeMethod has to split it again (enumerated for the 2-candidate sets)
-              /\ naming \in (IF g[2] = 2 THEN {"plain", "under"} ELSE {"plain"})
+              \*   under     : function / method / type names all contain "_"
+              \*   recvunder : only the receiver type's name contains "_" (method family)
+              \* declpos: the named candidates are declared textually before / after the overload
+              \* declaration that lists them (preloadFile must force-load them either way: ctx.lbinames)
+              /\ \E v \in Variants(g[1], g[2]) : naming = v[1] /\ declpos = v[2]
         /\ styles \in StyleVecs(fam, cands, listing)
 
         /\ onames = <<>> /\ decls = {} /\ exov = FALSE /\ table = <<>>
@@ -131,7 +139,7 @@ Preload == /\ pc = "preload"
                         \cup { <<OwnName(listing[j]), listing[j]>> : j \in { x \in 1..N : styles[x] # "lit" } }
            /\ exov'   = (\E j \in 1..N : styles[j] # "lit")
            /\ pc' = "initpkg"
-           /\ UNCHANGED <<fam, cands, listing, styles, unary, naming, table, k, i, res>>
+           /\ UNCHANGED <<fam, cands, listing, styles, unary, naming, declpos, table, k, i, res>>
 
 \* gogen import.go InitThisGopPkgEx: Gopo_ constant -> table; else name__i sorted by i
 InitPkg == /\ pc = "initpkg"
@@ -139,7 +147,7 @@ InitPkg == /\ pc = "initpkg"
                        THEN [j \in 1..N |-> IF onames[j] = Hole THEN LitName(j - 1) ELSE onames[j]]
                        ELSE [j \in 1..N |-> LitName(j - 1)]
            /\ pc' = "call" /\ k' = 1 /\ i' = 1
-           /\ UNCHANGED <<fam, cands, listing, styles, unary, naming, onames, decls, exov, res>>
+           /\ UNCHANGED <<fam, cands, listing, styles, unary, naming, declpos, onames, decls, exov, res>>
 
 Resolve(nm) == LET hits == { d \in decls : d[1] = nm } IN
                IF hits = {} THEN 0 ELSE (CHOOSE d \in hits : TRUE)[2]
@@ -149,21 +157,21 @@ ScanHit  == /\ pc = "call" /\ k <= N /\ i <= N
             /\ Resolve(table[i]) # 0 /\ Accepts(cands[Resolve(table[i])], ArgsOf(k))
             /\ res' = Append(res, Resolve(table[i]))
             /\ k' = k + 1 /\ i' = 1
-            /\ UNCHANGED <<fam, cands, listing, styles, unary, naming, onames, decls, exov, table, pc>>
+            /\ UNCHANGED <<fam, cands, listing, styles, unary, naming, declpos, onames, decls, exov, table, pc>>
 ScanMiss == /\ pc = "call" /\ k <= N /\ i <= N
             /\ ~(Resolve(table[i]) # 0 /\ Accepts(cands[Resolve(table[i])], ArgsOf(k)))
             /\ i' = i + 1
-            /\ UNCHANGED <<fam, cands, listing, styles, unary, naming, onames, decls, exov, table, k, res, pc>>
+            /\ UNCHANGED <<fam, cands, listing, styles, unary, naming, declpos, onames, decls, exov, table, k, res, pc>>
 NoMatch  == /\ pc = "call" /\ k <= N /\ i > N         \* compile error "no overload matches"
             /\ res' = Append(res, 0) /\ k' = k + 1 /\ i' = 1
-            /\ UNCHANGED <<fam, cands, listing, styles, unary, naming, onames, decls, exov, table, pc>>
+            /\ UNCHANGED <<fam, cands, listing, styles, unary, naming, declpos, onames, decls, exov, table, pc>>
 \* unary operator: `func -(a foo)` is method Gop_Neg of foo, resolved by name, no table
 UnaryCall == /\ pc = "call" /\ k = N + 1 /\ unary
              /\ res' = Append(res, N + 1) /\ k' = k + 1
-             /\ UNCHANGED <<fam, cands, listing, styles, unary, naming, onames, decls, exov, table, i, pc>>
+             /\ UNCHANGED <<fam, cands, listing, styles, unary, naming, declpos, onames, decls, exov, table, i, pc>>
 Finish   == /\ pc = "call" /\ k > NCalls
             /\ pc' = "done"
-            /\ UNCHANGED <<fam, cands, listing, styles, unary, naming, onames, decls, exov, table, k, i, res>>
+            /\ UNCHANGED <<fam, cands, listing, styles, unary, naming, declpos, onames, decls, exov, table, k, i, res>>
 
 Next == Preload \/ InitPkg \/ ScanHit \/ ScanMiss \/ NoMatch \/ UnaryCall \/ Finish
 Spec == Init /\ [][Next]_vars /\ WF_vars(Next)
@@ -198,16 +206,17 @@ Correct == pc = "done" => /\ Len(res) = NCalls
 Terminates == <>(pc = "done")
 
 \* name of the Gopo_ constant as cl/compile.go overloadName builds it, as a token sequence
-GopoSep  == IF naming = "under" THEN "__" ELSE "_"
+\* (operator overloads are named Gop_Mul, Gop_Add, ... : always the "__" form)
+GopoSep  == IF fam = "op" \/ naming = "under" \/ (naming = "recvunder" /\ fam = "method") THEN "__" ELSE "_"
 GopoName == IF fam = "func" THEN <<"Gopo", GopoSep, "F">> ELSE <<"Gopo", GopoSep, "T", GopoSep, "M">>
 \* gogen checkTypeMethod: a key (the part after "Gopo_") that starts with "_" uses "__" as separator,
 \* any other key is split at its first "_": both recover (type, name) only if names without "__"
 \* separator contain no "_" -- which is what overloadName guarantees
 KeyParses == LET key == Tail(GopoName)                      \* drop "Gopo"; key[1] is the separator
-             IN (key[1] = "__") <=> (naming = "under")
+             IN (key[1] = "__") <=> (fam = "op" \/ naming \in {"under", "recvunder"})
 
 Export == pc = "done" =>
-   Emit([fam |-> fam, naming |-> naming, gopoSep |-> GopoSep, cands |-> cands, listing |-> listing, styles |-> styles, unary |-> unary,
+   Emit([fam |-> fam, declpos |-> declpos, naming |-> naming, gopoSep |-> GopoSep, cands |-> cands, listing |-> listing, styles |-> styles, unary |-> unary,
          table |-> [j \in 1..N |-> [kind |-> table[j].kind, ix |-> table[j].ix]],
          want |-> res])
 =============================================================================
